@@ -28,6 +28,12 @@ func c18Seq(n int) string {
 	return "[" + strings.Join(p, " ") + "]"
 }
 
+// c18Long is a pipeline whose first byte line has n bytes: the reader must see that line and the two after it.
+func c18Long(name string, n int) c18Prog {
+	code := fmt.Sprintf("var s = ''; var p = x; var n = %d; while (> $n 0) { if (== (%% $n 2) 1) { set s = $s$p }; set p = $p$p; set n = (/ (- $n (%% $n 2)) 2) }; print $s\"\\nsecond\\nthird\\n\" | each {|l| put (count $l) }", n)
+	return c18Prog{name, code, []string{fmt.Sprintf("result err=ok values=[(num %d) (num 6) (num 5)] bytes=%q", n, "")}, 1}
+}
+
 func c18Progs() []c18Prog {
 	res := func(err, values, bytes string) string {
 		return fmt.Sprintf("result err=%s values=%s bytes=%q", err, values, bytes)
@@ -51,6 +57,10 @@ func c18Progs() []c18Prog {
 		{"writer-dups-stderr-over-piped-stdout", "echo to-stderr >&2 | each {|x| put got-$x }; put after", []string{res("ok", "[after]", "")}, 0},
 		{"writer-closes-piped-stdout", "put a >&- | each {|x| put got-$x }; put after", []string{res("ok", "[after]", ""), res("exc:port does not support value output", "[after]", ""), res("pipeline[exc:port does not support value output]", "[after]", ""), res("exc:port does not support value output", "[]", ""), res("pipeline[exc:port does not support value output]", "[]", "")}, 0},
 		{"reader-closes-piped-stdin", "put a b | each {|x| put got-$x } <&-; put after", []string{res("ok", "[after]", "")}, 0},
+		// byte lines around the buffer sizes of the reading side (bufio 4096) and beyond the capacity of the OS pipe
+		// (65536): the writer then has to wait for the reader in the middle of a line (file writes are scheduling points)
+		c18Long("line-4095", 4095), c18Long("line-4096", 4096), c18Long("line-4097", 4097),
+		c18Long("line-65535", 65535), c18Long("line-65536", 65536), c18Long("line-65537", 65537), c18Long("line-140000", 140000),
 		{"writer-fails-after-output", "{ put a; fail x } | each {|x| put $x }", []string{res("exc:x", "[a]", ""), res("pipeline[exc:x]", "[a]", "")}, 0},
 	}
 }
@@ -93,10 +103,10 @@ func TestVerifC18(t *testing.T) {
 		return
 	}
 	vk.Run(t, "C18", "exploration", func(c *vk.Ctx) {
-		c.Rule("every schedule of the real Evaler running each of 17 pipeline programs (values, byte lines, both bands, more values than the 32-slot channel, early-exiting readers, failing stages, fd redirections applied to the pipe ends of a stage), at synchronisation granularity (channel ops, select, mutex, waitgroup, atomics, pipe reads), with at most `bound` departures from the default goroutine (delay bounding; bound 2, 1 for the three long programs); class = distinct (program, observation log)")
+		c.Rule("every schedule of the real Evaler running each of 24 pipeline programs (values, byte lines, both bands, more values than the 32-slot channel, early-exiting readers, failing stages, fd redirections applied to the pipe ends of a stage, byte lines of 4095..140000 bytes, i.e. around the reader's buffer sizes and beyond the OS pipe capacity), at synchronisation granularity (channel ops, select, mutex, waitgroup, atomics, pipe reads), with at most `bound` departures from the default goroutine (delay bounding; bound 2, 1 for the three long programs); class = distinct (program, observation log)")
 		c.Assume("pkg/eval and pkg/eval/vars are rewritten so that their synchronisation goes through the controlled scheduler; x/sync/semaphore is compiled from its real source the same way",
 			"memory-model effects below synchronisation granularity and schedules beyond the bound are not explored",
-			"pipe reads are gated by poll(2); pipe writes are assumed not to block (outputs are far below the pipe capacity)")
+			"pipe reads are gated by poll(2); pipe writes of the byte-output port are split into chunks of <=4096 bytes, each a scheduling point gated by poll(2) POLLOUT, so a writer facing a full pipe yields to the reader")
 		vshard.Run(c, c18Scenarios(), cfg)
 	})
 }
